@@ -738,6 +738,7 @@ func run(c *ev.Ctx) {
 	histories(c)
 	streamx.Run(c)
 	mapOrder(c)
+	constructionPaths(c)
 	// static site inventory (written by the overlay generator)
 	if data, err := os.ReadFile(os.Getenv("VERIF_DIR") + "/.build/overlay/sites.json"); err == nil {
 		var inv struct {
@@ -803,6 +804,15 @@ func replay(raw stdjson.RawMessage) (bool, string) {
 		var d string
 		shim.RunEnv(cs.Env, func() { d = runHistory(ops, fresh, hist) })
 		return d != "", d
+	}
+	if cs.Kind == "paths" && cs.Case != nil && len(cs.Env) == 1 {
+		docs := []string{`{"a":1}`, `{"k":1}`, `{"k":"ab","l":1}`, `[1]`, `"ab"`, `1`, `{}`, `{"k":1.5}`, `null`}
+		sp := cs.Case.Spec()
+		var a, b string
+		shim.RunEnv(nil, func() { a = observeSpec(sp, docs) })
+		sp.Via = cs.Env[0]
+		shim.RunEnv(nil, func() { b = observeSpec(sp, docs) })
+		return a != b, fmt.Sprintf("string constructor %.150q, other constructor %.150q", a, b)
 	}
 	if cs.Case != nil {
 		docs := []string{`{"a":1}`, `{}`}
